@@ -365,7 +365,13 @@ func (r *runT) stage(l *loadT) {
 				m = map[string]any{}
 			}
 			b, _ := json.Marshal(m) // JSON is YAML
+			// same size (padded with blanks) and same modification time on every rewrite: a source
+			// that decides from size and mtime whether to read the file again would serve stale bytes
+			for len(b)%512 != 0 {
+				b = append(b, ' ')
+			}
 			_ = os.WriteFile(p, b, 0o600)
+			_ = os.Chtimes(p, fixedTime, fixedTime)
 			if r.written == nil {
 				r.written = map[int][]byte{}
 			}
@@ -435,16 +441,17 @@ func (r *runT) returned(i int, s *srcT) (map[string]any, bool) {
 }
 
 type loadObs struct {
-	failed bool
-	values map[string]any
-	bound  [][2]string
-	gets   []any
-	seen   []map[string]any // one per reader (free readers: first snapshot that is neither before nor after, else before)
-	seenOK []bool           // free readers: every snapshot was one of the two
-	place  []int            // effective placement: a reader whose callback did not run reads after the Load (4)
-	typed  bool             // the typed getters agree with Get: value present (falsy or not) -> converted value, nil -> zero / default
-	raced  bool             // a second Load ran concurrently
-	failB  bool             // … and failed
+	failed   bool
+	values   map[string]any
+	bound    [][2]string
+	gets     []any
+	seen     []map[string]any // one per reader (free readers: first snapshot that is neither before nor after, else before)
+	seenOK   []bool           // free readers: every snapshot was one of the two
+	place    []int            // effective placement: a reader whose callback did not run reads after the Load (4)
+	typed    bool             // the typed getters agree with Get: value present (falsy or not) -> converted value, nil -> zero / default
+	panicked bool             // a Load panicked
+	raced    bool             // a second Load ran concurrently
+	failB    bool             // … and failed
 }
 
 // typedOK compares String/Int/Bool/Float64, the …Or variants and the generic Get/GetOr with what
@@ -479,6 +486,21 @@ func typedOK(cfg *config.Config, keys []string) bool {
 }
 
 func snapshot(cfg *config.Config) map[string]any { return deepCopyMap(*cfg.Values()) }
+
+var panicMu sync.Mutex
+
+// safeLoad: a panic out of Load is an observation, not a harness crash.
+func (r *runT) safeLoad(ctx context.Context, o *loadObs) (err error) {
+	defer func() {
+		if p := recover(); p != nil {
+			panicMu.Lock()
+			o.panicked = true
+			panicMu.Unlock()
+			err = fmt.Errorf("panic: %v", p)
+		}
+	}()
+	return r.cfg.Load(ctx)
+}
 
 // inflightGets reads every probe key through Get (and a typed getter) while a Load is running. The
 // results are not part of the observation; reading must simply not influence anything: whatever a
@@ -530,10 +552,19 @@ func (r *runT) runLoad(l *loadT) (o loadObs) {
 		}
 	}
 	pre = make([]*map[string]any, len(l.Readers))
+	early := make([]map[string]any, len(l.Readers))
 	for j, rd := range l.Readers {
 		switch rd.Place {
 		case 0:
+			// the reader keeps the pointer across the Load: it reads every other key now and the rest
+			// afterwards; the pointer must keep showing one configuration (the one it was taken from)
 			pre[j] = r.cfg.Values()
+			early[j] = map[string]any{}
+			for n, k := range sortedMapKeys(*pre[j]) {
+				if n%2 == 0 {
+					early[j][k] = deepCopy((*pre[j])[k])
+				}
+			}
 		case 9:
 			f := &free{idx: j}
 			frees = append(frees, f)
@@ -575,10 +606,10 @@ func (r *runT) runLoad(l *loadT) (o loadObs) {
 		var errB error
 		var lw sync.WaitGroup
 		lw.Add(2)
-		go func() { defer lw.Done(); err = r.cfg.Load(context.Background()) }()
+		go func() { defer lw.Done(); err = r.safeLoad(context.Background(), &o) }()
 		go func() {
 			defer lw.Done()
-			errB = r.cfg.Load(context.WithValue(context.Background(), loaderKey{}, 1))
+			errB = r.safeLoad(context.WithValue(context.Background(), loaderKey{}, 1), &o)
 		}()
 		if len(l.Srcs) > 0 && l.Srcs[0].Kind == "map" { // a file/env source has no hook: no barrier then
 			for n := 0; n < 2; n++ {
@@ -593,7 +624,7 @@ func (r *runT) runLoad(l *loadT) (o loadObs) {
 		o.failB = errB != nil
 	} else {
 		ctx, cancel := context.WithCancel(context.Background())
-		err = r.cfg.Load(context.WithValue(ctx, cancelKey{}, cancel))
+		err = r.safeLoad(context.WithValue(ctx, cancelKey{}, cancel), &o)
 		cancel()
 	}
 	close(stop)
@@ -604,7 +635,14 @@ func (r *runT) runLoad(l *loadT) (o loadObs) {
 	for j, rd := range l.Readers {
 		switch rd.Place {
 		case 0:
-			o.seen[j] = deepCopyMap(*pre[j])
+			late := deepCopyMap(*pre[j])
+			for k := range early[j] {
+				delete(late, k)
+			}
+			for k, v := range early[j] {
+				late[k] = v // what was read before the Load
+			}
+			o.seen[j] = late
 		case 4:
 			o.seen[j] = snapshot(r.cfg)
 		}
@@ -652,11 +690,21 @@ func (r *runT) freshOutcome(second bool) (ok bool, fields [][2]string, vals map[
 		}
 		*f.race[i] = *f.cur[i]
 	}
-	err := f.cfg.Load(context.Background())
+	var dummy loadObs
+	err := f.safeLoad(context.Background(), &dummy)
 	if err != nil {
 		return false, nil, nil, false
 	}
 	return true, renderBound(f.bound), *f.cfg.Values(), true
+}
+
+func sortedMapKeys(m map[string]any) []string {
+	out := make([]string, 0, len(m))
+	for k := range m {
+		out = append(out, k)
+	}
+	sort.Strings(out)
+	return out
 }
 
 func lookupPath(m map[string]any, path []string) bool {
@@ -677,6 +725,8 @@ func lookupPath(m map[string]any, path []string) bool {
 	}
 	return false
 }
+
+var fixedTime = time.Date(2024, 1, 2, 3, 4, 5, 0, time.UTC)
 
 var caseCtr int
 
@@ -818,7 +868,7 @@ func emit(id string, c caseT, st *hx.Stats) string {
 		for _, g := range o.gets {
 			resTok(l, g)
 		}
-		l.Tok("TY").Bool(o.typed)
+		l.Tok("TY").Bool(o.typed).Tok("PN").Bool(o.panicked)
 		l.Tok("RD").Nat(len(o.seen))
 		for j, s := range o.seen {
 			l.Bool(o.seenOK[j])
